@@ -143,13 +143,18 @@ func noteInt(op *simnet.Op, key string) int {
 	return -1
 }
 
-func (r *reuseRunner) startCall(c int) {
+func (r *reuseRunner) startCall(c int, precancel bool) {
 	ctx, cancel := context.WithCancel(context.Background())
 	cl := &call{id: c, ctx: ctx, cancel: cancel, done: make(chan struct{}), startAt: time.Now()}
 	r.cs.mu.Lock()
 	r.cs.m[c] = cl
 	r.cs.mu.Unlock()
 	r.rec.Log("Start", "c", c)
+	if precancel {
+		r.rec.Log("Cancel", "c", c)
+		cl.cancelled = true
+		cancel()
+	}
 	go func() {
 		defer func() {
 			if p := recover(); p != nil { // a panic of the code under test is a conformance failure
@@ -207,11 +212,14 @@ func (r *reuseRunner) step(s Step) (bool, string) {
 	x, c, d := s.num("x"), s.num("c"), s.num("d")
 	switch a {
 	case "Start":
-		r.startCall(c)
+		r.startCall(c, s.flag("precancel"))
 	case "Cancel":
 		cl := r.cs.get(c)
 		if cl == nil {
 			return false, "cancel of a call that was not started"
+		}
+		if cl.cancelled {
+			return true, "" // (pre-cancelled at its start)
 		}
 		r.rec.Log("Cancel", "c", c)
 		cl.cancelled = true
@@ -634,7 +642,7 @@ func runReuse(idx int, sc Script) Result {
 	}
 	r.drain()
 	if len(res.Hang) == 0 && !sc.NoPostCall {
-		r.startCall(postCall)
+		r.startCall(postCall, false)
 		if !waitDone(r.cs.get(postCall).done, hangWait) {
 			res.Hang = append(res.Hang, "call after Close")
 		}
